@@ -11,11 +11,12 @@ impl<'a> Context<'a> {
     ) -> Result<(), Error> {
         use crate::utils::arguments;
 
+        let format_string_arg = sscanf_symbol
+            .parameters
+            .get(1)
+            .ok_or_else(|| anyhow!("No format string parameter known for the symbol"))?;
         let format_string_address = state
-            .eval_parameter_arg(
-                &sscanf_symbol.parameters[1],
-                &self.project.runtime_memory_image,
-            )?
+            .eval_parameter_arg(format_string_arg, &self.project.runtime_memory_image)?
             .get_if_absolute_value()
             .ok_or_else(|| anyhow!("Format string may not be a constant string"))?
             .try_to_bitvec()?;
@@ -102,17 +103,22 @@ impl<'a> Context<'a> {
         extern_symbol: &ExternSymbol,
     ) -> Data {
         use return_value_stubs::*;
+        // Ghidra may not be supplying parameter information for a symbol.
+        // In that case the return value is untracked.
+        let has_param = !extern_symbol.parameters.is_empty();
         match extern_symbol.name.as_str() {
-            "memcpy" | "memmove" | "memset" | "strcat" | "strcpy" | "strncat" | "strncpy" => {
+            "memcpy" | "memmove" | "memset" | "strcat" | "strcpy" | "strncat" | "strncpy"
+                if has_param =>
+            {
                 copy_param(state, extern_symbol, 0, &self.project.runtime_memory_image)
             }
-            "fgets" => or_null(copy_param(
+            "fgets" if has_param => or_null(copy_param(
                 state,
                 extern_symbol,
                 0,
                 &self.project.runtime_memory_image,
             )),
-            "strchr" | "strrchr" | "strstr" => or_null(param_plus_unknown_offset(
+            "strchr" | "strrchr" | "strstr" if has_param => or_null(param_plus_unknown_offset(
                 state,
                 extern_symbol,
                 0,
